@@ -5,3 +5,4 @@ import LeraxModel.Rescale
 import LeraxModel.Replay
 import LeraxModel.Batching
 import LeraxModel.OnPolicy
+import LeraxModel.OffPolicy
